@@ -221,6 +221,31 @@ fn judge_grid(case: &Case, l: &mut Local) {
             l.check("result is unchanged, up to a planar rigid motion, by rigid motion of the input", "", md <= 1e-6, mk, || format!("pairwise distances differ by {:e}", md));
         }
     }
+    // the units of the coordinates do not matter: the same disk in microns or kilometres flattens to the
+    // same shape (only on the unposed, unrelabelled member of each family)
+    if let (Some(base), 0, 0) = (&uv, case.pose, case.relabel) {
+        for sc in [1e-6, 1e-3, 1e3] {
+            l.eval();
+            let vs: Vec<Point3> = v1.iter().map(|q| Point3::from(q.coords * sc)).collect();
+            l.bucket("same disk at another scale");
+            match flatten(&vs, &f1) {
+                Ok(u) => {
+                    let mut md: f64 = 0.0;
+                    let mut ext: f64 = 0.0;
+                    for i in 0..u.len() {
+                        for j in 0..u.len() {
+                            md = md.max((d2(&u[i], &u[j]) / sc - d2(&base[i], &base[j])).abs());
+                            ext = ext.max(d2(&base[i], &base[j]));
+                        }
+                    }
+                    l.check("flattening does not depend on the units of the coordinates", "", u.len() == base.len() && md <= 1e-6 * (1.0 + ext), mk, || format!("scale {:e}: pairwise distances differ by {:e} (relative to the unit-scale result)", sc, md));
+                }
+                Err(e) => {
+                    l.check("flattening does not depend on the units of the coordinates", if e.starts_with("panic") { "panic" } else { "err" }, false, mk, || format!("scale {:e}: {}", sc, e));
+                }
+            }
+        }
+    }
     // UV round trip (unposed, unrelabelled meshes carry the map)
     if let (Some(uv), 0, 0) = (&uv, case.pose, case.relabel) {
         let poses = gen::iso3_poses();
